@@ -32,7 +32,7 @@ type vPreflightPerObject struct {
 	bad   map[string]bool
 	calls []string
 	// number of real writes seen when each check ran
-	w *vWriter
+	w            *vWriter
 	writesAtCall []int
 }
 
